@@ -7,6 +7,8 @@ import RsMatterVerif.Lemmas.CodecDerLinkX509
 * `x509New_tbs_refused` — `X509Cert::new` answers `InvalidData` on a bare TBSCertificate (what `as_asn1` emits).
 * `cal_days`, `civil_day_bound`, `calOf_agree` — the writer's `civil_from_days` and the `der` crate's `DateTime::new`
   agree on every instant from the Matter epoch to the end of year 9999.
+* `fails_extLoop`, `XExt.toX`, `ext_encRd`, `C17.cert_x509_exts_read`, `C17.cert_x509_exts_eku_refused` — the extension
+  reader returns the values written for RCAC / ICAC-shaped lists and refuses the critical extended key usage of a NOC.
 * `run_validity_asn1`, `C17.cert_x509_tbs_walk` — `Validity::decode` returns the two instants; one walk over the whole output.
 -/
 namespace Codec.DerRd
@@ -416,5 +418,307 @@ theorem cert_x509_tbs_walk (f : Fields) (h : f.Legal) (hpl : f.pubkey.length = 6
     exact DerRd.Run.pure ⟨hhd, hv.1, hv.2.1, hm.1, hm.2.1, hm.2.2.1, hm.2.2.2, hx2⟩
   obtain ⟨a, ha, hder⟩ := DerRd.fromDer_of_run hrun hmax
   exact ⟨a, hder, ha⟩
+
+end C17
+
+/-! ## the extension reader `ParsedExtensionFields::parse` on the output of `as_asn1` -/
+namespace Codec.DerRd
+
+/-- **`ParsedExtensionFields::parse` refuses an unknown critical extension**: after any list of extensions it can read, an
+extension with `critical = TRUE` and an OID other than the four it knows makes the loop answer `Failed` -/
+theorem fails_extLoop {fuel : Nat} {oid value tail : List Nat} (hoid : oidValid oid = true)
+    (h1 : oid ≠ OID_BASIC_CONSTRAINTS) (h2 : oid ≠ OID_KEY_USAGE) (h3 : oid ≠ OID_SUBJECT_KEY_ID) (h4 : oid ≠ OID_AUTHORITY_KEY_ID) :
+    ∀ (l : List Ext) (n : Nat) (acc : ExtFields), (∀ e ∈ l, e.WF) → l.length < n →
+    Fails (extLoop (fuel + 1) n acc) (encExts l ++ (encExtension oid true value ++ tail)) .failed
+  | [], n, acc, _, hn => by
+    cases n with
+    | zero => omega
+    | succ n =>
+      simp only [encExts, List.map_nil, List.flatten_nil, List.nil_append]
+      refine Fails.of_len (fun hlen => ?_)
+      unfold extLoop
+      refine Fails.bind_right run_finished (fun b hb => ?_)
+      subst hb
+      have hne : (encExtension oid true value ++ tail).isEmpty = false := by simp [encExtension, encTlv]
+      simp only [hne, Bool.false_eq_true, if_false]
+      unfold encExtension
+      refine Fails.bind_right (run_anyAt tagOfByte_seq) (fun x hx => ?_)
+      obtain ⟨tag, ev, eoff⟩ := x
+      simp only at hx
+      obtain ⟨_, hev⟩ := hx
+      subst hev
+      simp only
+      have hevlen : (encOid oid ++ (if true = true then encBool true else []) ++ encOctets value).length ≤ MAX_LEN := by
+        have h1 := encTlv_length_ge TAG_SEQUENCE (encOid oid ++ (if true = true then encBool true else []) ++ encOctets value)
+        simp only [encExtension, List.length_append] at hlen h1 ⊢
+        omega
+      have hhead := run_extHead (oid := oid) (value := value) (critical := true) hoid
+      rw [← List.append_assoc] at hhead
+      obtain ⟨y, hy, hrun⟩ := runNew_of_run hhead hevlen
+      obtain ⟨o, critical, v, voff⟩ := y
+      simp only at hy
+      obtain ⟨rfl, rfl, rfl⟩ := hy
+      refine Fails.bind_right (Run.lift hrun rfl) (fun z hz => ?_)
+      subst hz
+      simp only
+      refine Fails.bind_left (Fails.lift ?_)
+      unfold extApply
+      simp [h1, h2, h3, h4]
+  | e :: rest, n, acc, hwf, hn => by
+    cases n with
+    | zero => omega
+    | succ n =>
+      rw [encExts_cons, encExt_eq, List.append_assoc]
+      refine Fails.of_len (fun hlen => ?_)
+      unfold extLoop
+      refine Fails.bind_right run_finished (fun b hb => ?_)
+      subst hb
+      have hne : (encExtension e.oid e.critical e.value ++ (encExts rest ++ (encExtension oid true value ++ tail))).isEmpty = false := by
+        simp [encExtension, encTlv]
+      simp only [hne, Bool.false_eq_true, if_false]
+      unfold encExtension
+      refine Fails.bind_right (run_anyAt tagOfByte_seq) (fun x hx => ?_)
+      obtain ⟨tag, ev, eoff⟩ := x
+      simp only at hx
+      obtain ⟨_, hev⟩ := hx
+      subst hev
+      simp only
+      have hwe := hwf e (by simp)
+      have hevlen : (encOid e.oid ++ (if e.critical = true then encBool true else []) ++ encOctets e.value).length ≤ MAX_LEN := by
+        have h1 := encTlv_length_ge TAG_SEQUENCE (encOid e.oid ++ (if e.critical = true then encBool true else []) ++ encOctets e.value)
+        simp only [encExtension, List.length_append] at hlen h1 ⊢
+        omega
+      have hvlen : e.value.length ≤ MAX_LEN := by
+        have h1 := encTlv_length_ge TAG_OCTET_STRING e.value
+        simp only [List.length_append, encOctets] at hevlen
+        omega
+      have hhead := run_extHead (oid := e.oid) (value := e.value) (critical := e.critical) (Ext.oid_valid hwe)
+      rw [← List.append_assoc] at hhead
+      obtain ⟨y, hy, hrun⟩ := runNew_of_run hhead hevlen
+      obtain ⟨o, critical, v, voff⟩ := y
+      simp only at hy
+      obtain ⟨rfl, rfl, rfl⟩ := hy
+      refine Fails.bind_right (Run.lift hrun rfl) (fun z hz => ?_)
+      subst hz
+      simp only
+      obtain ⟨acc', hacc', _⟩ := extApply_enc (fuel := fuel) (acc := acc) (e := e) (base := eoff + voff) hwe hvlen
+      refine Fails.bind_right (Run.lift hacc' rfl) (fun z hz => ?_)
+      subst hz
+      exact fails_extLoop hoid h1 h2 h3 h4 rest n acc' (fun e' he' => hwf e' (by simp [he'])) (by simp only [List.length_cons] at hn; omega)
+
+end Codec.DerRd
+
+namespace Codec.CertAsn1
+open Codec Codec.Der
+
+/-- the X.509 extension (as the X.509 model's encoder `encExt` writes it) of a Matter extension that
+`ParsedExtensionFields::parse` knows -/
+def XExt.toX : XExt → Option DerRd.Ext
+  | .basic isCa path => some (.basicConstraints true isCa path)
+  | .keyUsage v =>
+    match bitstrContent true (keyUsageBytes v) with
+    | u :: bs => some (.keyUsage true u bs)
+    | [] => none
+  | .subjKeyId b => some (.subjectKeyId false b)
+  | .authKeyId b => some (.authorityKeyId false b)
+  | _ => none
+
+theorem tz_lt : ∀ (k x : Nat), x ≠ 0 → x < 2 ^ k → tz k x < k
+  | 0, x, h0, h => by simp at h; omega
+  | k + 1, x, h0, h => by
+    unfold tz
+    split
+    · omega
+    · have := tz_lt k (x / 2) (by omega) (by rw [Nat.pow_succ] at h; omega)
+      omega
+
+theorem encU8_pathInt (p : Nat) : DerRd.encU8 p = DerRd.encTlv DerRd.TAG_INTEGER (pathInt p) := by
+  unfold DerRd.encU8 pathInt
+  split <;> rfl
+
+theorem ext_encRd (e : XExt) (x : DerRd.Ext) (hw : e.WF) (hx : e.toX = some x) :
+    (extNode e).encRd = DerRd.encExt x ∧ x.WF := by
+  cases e with
+  | basic isCa path =>
+    simp only [XExt.toX, Option.some.injEq] at hx; subst hx
+    refine ⟨?_, hw⟩
+    cases isCa <;> cases path <;>
+      simp [extNode, extNodeKnown, seq, Node.encRd, Node.encRdL, DerRd.encExt, DerRd.encExtension, DerRd.encBasicConstraints,
+        DerRd.encPathLen, encU8_pathInt, DerRd.encOid, DerRd.encBool, DerRd.encOctets, DerRd.TAG_SEQUENCE, DerRd.TAG_OID,
+        DerRd.TAG_BOOLEAN, DerRd.TAG_OCTET_STRING, DerRd.TAG_INTEGER, OID_BASIC_CONSTRAINTS, DerRd.OID_BASIC_CONSTRAINTS]
+  | keyUsage v =>
+    obtain ⟨k, u, hk, hc, _, hz, hnz⟩ := bitstrContent_true_spec (keyUsageBytes v)
+    simp only [XExt.toX, hc, Option.some.injEq] at hx; subst hx
+    refine ⟨?_, ?_, ?_⟩
+    · simp [extNode, extNodeKnown, seq, Node.encRd, Node.encRdL, hc, DerRd.encExt, DerRd.encExtension, DerRd.encBitString,
+        DerRd.encOid, DerRd.encBool, DerRd.encOctets, DerRd.TAG_SEQUENCE, DerRd.TAG_OID, DerRd.TAG_BOOLEAN,
+        DerRd.TAG_OCTET_STRING, DerRd.TAG_BIT_STRING, OID_KEY_USAGE, DerRd.OID_KEY_USAGE]
+    · by_cases h0 : 0 < k
+      · obtain ⟨y, hy, hy0, hu⟩ := hnz h0
+        have hy256 : y < 256 := by
+          have hmem : y ∈ keyUsageBytes v := List.mem_of_getElem? hy
+          simp only [keyUsageBytes, List.mem_cons, List.not_mem_nil, or_false] at hmem
+          rcases hmem with rfl | rfl
+          · exact (rev_facts _ (Nat.mod_lt _ (by decide))).1
+          · exact (rev_facts _ (Nat.mod_lt _ (by decide))).1
+        have := tz_lt 8 y hy0 (by simpa using hy256)
+        omega
+      · have := hz (by omega); omega
+    · intro hu
+      by_cases h0 : 0 < k
+      · intro hnil
+        have : ((keyUsageBytes v).take k).length = 0 := by rw [hnil]; rfl
+        simp [keyUsageBytes] at this; omega
+      · exact absurd (hz (by omega)) hu
+  | subjKeyId b =>
+    simp only [XExt.toX, Option.some.injEq] at hx; subst hx
+    refine ⟨?_, trivial⟩
+    simp [extNode, extNodeKnown, seq, Node.encRd, Node.encRdL, DerRd.encExt, DerRd.encExtension,
+      DerRd.encOid, DerRd.encOctets, DerRd.TAG_SEQUENCE, DerRd.TAG_OID,
+      DerRd.TAG_OCTET_STRING, OID_SUBJ_KEY_IDENTIFIER, DerRd.OID_SUBJECT_KEY_ID]
+  | authKeyId b =>
+    simp only [XExt.toX, Option.some.injEq] at hx; subst hx
+    refine ⟨?_, trivial⟩
+    simp [extNode, extNodeKnown, seq, Node.encRd, Node.encRdL, DerRd.encExt, DerRd.encExtension,
+      DerRd.encOid, DerRd.encOctets, DerRd.TAG_SEQUENCE, DerRd.TAG_OID,
+      DerRd.TAG_OCTET_STRING, OID_AUTH_KEY_ID, DerRd.OID_AUTHORITY_KEY_ID]
+  | extKeyUsage l => simp [XExt.toX] at hx
+  | future b => simp [XExt.toX] at hx
+
+theorem exts_encRd (l : List XExt) (xs : List DerRd.Ext) (hw : ∀ e ∈ l, e.WF) (hx : mapO XExt.toX l = some xs) :
+    Node.encRdL (l.map extNode) = DerRd.encExts xs ∧ (∀ x ∈ xs, x.WF) ∧ xs.length = l.length := by
+  induction l generalizing xs with
+  | nil => simp [mapO] at hx; subst hx; exact ⟨rfl, by simp, rfl⟩
+  | cons e r ih =>
+    obtain ⟨b, bs, h1, h2, rfl⟩ := mapO_some_cons _ _ _ _ hx
+    obtain ⟨e1, e2⟩ := ext_encRd e b (hw e (by simp)) h1
+    obtain ⟨r1, r2, r3⟩ := ih bs (fun c hc => hw c (by simp [hc])) h2
+    refine ⟨by simp [Node.encRdL, e1, r1, DerRd.encExts_cons], ?_, by simp [r3]⟩
+    intro c hc; rcases List.mem_cons.1 hc with rfl | hc; exact e2; exact r2 c hc
+end Codec.CertAsn1
+
+namespace Codec.DerRd
+
+/-- `Dac/Pai/PaaExtensions::decode` without the profile checks: SEQUENCE, nested reader, `ParsedExtensionFields::parse` -/
+def dExtFields (fuel : Nat) : Dec ExtFields := do
+  let len ← dHeaderOf TAG_SEQUENCE
+  dNested len (extLoop fuel fuel ExtFields.empty)
+
+theorem fails_ctxExplicit {α : Type} {t : Nat} {inner : Dec α} {v rest : List Nat} {e : E}
+    (ht : tagOfByte t = .ok t) (hc : isCtx t = true) (hk : isConstructed t = true) (hi : Fails inner v e) :
+    Fails (ctxExplicit inner) (encTlv t v ++ rest) e := by
+  unfold ctxExplicit
+  refine Fails.bind_right (run_header ht) (fun x hx => ?_)
+  subst hx
+  simp only [hc, hk, Bool.and_self, if_true]
+  exact fails_nested rfl hi
+
+theorem fails_ctxWith_hit {α : Type} {n fuel t : Nat} {f : Dec α} {l : List Nat} {e : E}
+    (hl : l.head? = some t) (ht : tagOfByte t = .ok t) (hc : isCtx t = true) (hn : tagNumber t = n)
+    (hf : Fails f l e) : Fails (ctxWith n f (fuel + 1)) l e := by
+  unfold ctxWith
+  refine Fails.bind_right run_peek (fun o ho => ?_)
+  subst ho
+  rw [hl]
+  simp only
+  refine Fails.bind_right (Run.lift ht rfl) (fun t' ht' => ?_)
+  subst ht'
+  rw [if_neg (by simp [hc, hn]), if_pos hn]
+  exact Fails.bind_left hf
+
+end Codec.DerRd
+
+namespace C17
+open Codec Codec.Der Codec.CertAsn1
+
+/-- **(iii) RCAC / ICAC-shaped extension lists are read back by `ParsedExtensionFields::parse`.** If every extension of the
+certificate is one the X.509 parser knows (basic constraints, key usage, subject / authority key identifier — no
+extended key usage, no future extension), the `[3]` element `as_asn1` writes is the X.509 model's own encoding of the list
+`xs` (`XExt.toX`), and the parser's extension reader returns exactly the values written (`Ext.apply` folds: criticality,
+cA, path length, the key-usage bits of the BIT STRING, the two key identifiers). -/
+theorem cert_x509_exts_read (l : List XExt) (xs : List DerRd.Ext) (hw : ∀ e ∈ l, e.WF) (hx : mapO XExt.toX l = some xs)
+    (fuel : Nat) (hf : l.length < fuel + 1) :
+    extsBytes l = DerRd.encTlv 0xA3 (DerRd.encTlv DerRd.TAG_SEQUENCE (DerRd.encExts xs)) ∧
+    DerRd.Run (DerRd.ctxWith 3 (DerRd.ctxExplicit (DerRd.dExtFields (fuel + 1))) (fuel + 1)) (extsBytes l)
+      (fun o => ∃ e, o = some e ∧
+        e.view = xs.foldl DerRd.Ext.apply { bc := none, ku := none, skid := none, akid := none }) [] := by
+  obtain ⟨h1, h2, h3⟩ := exts_encRd l xs hw hx
+  have hb : extsBytes l = DerRd.encTlv 0xA3 (DerRd.encTlv DerRd.TAG_SEQUENCE (DerRd.encExts xs)) := by
+    simp [extsBytes, h1, DerRd.TAG_SEQUENCE]
+  refine ⟨hb, ?_⟩
+  rw [hb]
+  have hin : DerRd.Run (DerRd.dExtFields (fuel + 1)) (DerRd.encTlv DerRd.TAG_SEQUENCE (DerRd.encExts xs))
+      (fun e => e.view = xs.foldl DerRd.Ext.apply { bc := none, ku := none, skid := none, akid := none }) [] := by
+    unfold DerRd.dExtFields
+    refine DerRd.Run.of_append_nil ?_
+    refine DerRd.Run.bind (DerRd.run_headerOf DerRd.tagOfByte_seq) (fun n hn => ?_)
+    subst hn
+    refine DerRd.run_nested rfl ?_
+    exact DerRd.run_extLoop (fuel := fuel) xs (fuel + 1) DerRd.ExtFields.empty h2 (by omega)
+  have hexp := DerRd.Run.of_append_nil (DerRd.run_ctxExplicit (rest := []) DerRd.tagOfByte_a3 (by decide) (by decide) hin)
+  exact DerRd.run_ctxWith_hit (t := 0xA3) (by simp [DerRd.encTlv]) DerRd.tagOfByte_a3 (by decide) (by decide) hexp
+
+/-- **(ii) the extension reader refuses every certificate with the (critical) extended-key-usage extension** — i.e. every
+Matter NOC: after any readable extensions, `ParsedExtensionFields::parse` meets extnID 2.5.29.37 with `critical = TRUE`,
+which is none of the four it knows, and answers `Failed`. -/
+theorem cert_x509_exts_eku_refused (pre post : List XExt) (eku : List Nat) (xs : List DerRd.Ext)
+    (hw : ∀ e ∈ pre, e.WF) (hx : mapO XExt.toX pre = some xs) (fuel : Nat) (hf : pre.length < fuel + 1) :
+    DerRd.Fails (DerRd.ctxWith 3 (DerRd.ctxExplicit (DerRd.dExtFields (fuel + 1))) (fuel + 1))
+      (extsBytes (pre ++ .extKeyUsage eku :: post)) .failed := by
+  obtain ⟨h1, h2, h3⟩ := exts_encRd pre xs hw hx
+  have hb : extsBytes (pre ++ .extKeyUsage eku :: post) = DerRd.encTlv 0xA3 (DerRd.encTlv DerRd.TAG_SEQUENCE
+      (DerRd.encExts xs ++ (DerRd.encExtension OID_EXT_KEY_USAGE true
+        (DerRd.encTlv 0x30 (Node.encRdL (eku.flatMap ekuNode))) ++ Node.encRdL (post.map extNode)))) := by
+    simp [extsBytes, List.map_append, Node.encRdL_append, Node.encRdL, h1, DerRd.TAG_SEQUENCE, extNode, extNodeKnown, seq,
+      Node.encRd, DerRd.encExtension, DerRd.encOid, DerRd.encBool, DerRd.encOctets, DerRd.TAG_OID, DerRd.TAG_BOOLEAN,
+      DerRd.TAG_OCTET_STRING]
+  rw [hb]
+  have hin : DerRd.Fails (DerRd.dExtFields (fuel + 1)) (DerRd.encTlv DerRd.TAG_SEQUENCE
+      (DerRd.encExts xs ++ (DerRd.encExtension OID_EXT_KEY_USAGE true
+        (DerRd.encTlv 0x30 (Node.encRdL (eku.flatMap ekuNode))) ++ Node.encRdL (post.map extNode)))) .failed := by
+    unfold DerRd.dExtFields
+    have h0 : ∀ x : List Nat, x = x ++ [] := by simp
+    rw [h0 (DerRd.encTlv _ _)]
+    refine DerRd.Fails.bind_right (DerRd.run_headerOf DerRd.tagOfByte_seq) (fun n hn => ?_)
+    subst hn
+    refine DerRd.fails_nested rfl ?_
+    exact DerRd.fails_extLoop (by decide) (by decide) (by decide) (by decide) (by decide) xs (fuel + 1)
+      DerRd.ExtFields.empty h2 (by omega)
+  have h0 : ∀ x : List Nat, x = x ++ [] := by simp
+  rw [h0 (DerRd.encTlv 0xA3 _)]
+  refine DerRd.fails_ctxWith_hit (t := 0xA3) (by simp [DerRd.encTlv]) DerRd.tagOfByte_a3 (by decide) (by decide) ?_
+  exact DerRd.fails_ctxExplicit DerRd.tagOfByte_a3 (by decide) (by decide) hin
+
+/-- non-vacuity: the extension list of an RCAC / ICAC (`certSampleX509` without its extended key usage) -/
+example : mapO XExt.toX [.basic true (some 0), .keyUsage 0x60, .subjKeyId [1, 2], .authKeyId [3]] =
+    some [.basicConstraints true true (some 0), .keyUsage true 1 [0x06], .subjectKeyId false [1, 2],
+          .authorityKeyId false [3]] := by decide
+/-- … and the NOC shape of `certSampleX509` itself: the extensions before its extended key usage are readable -/
+example : certSampleX509.exts = [.basic true (some 0), .keyUsage 0x60] ++ .extKeyUsage [2, 1] :: [.subjKeyId [1, 2], .authKeyId [3]] ∧
+    (mapO XExt.toX [.basic true (some 0), .keyUsage 0x60]).isSome = true := by decide
+
+end C17
+
+namespace C17
+open Codec Codec.Der Codec.CertAsn1
+
+/-- **(i) `X509Cert::new` refuses the output of `as_asn1`, for every certificate type and every certificate within the
+declared bounds**: the bytes are a bare TBSCertificate (first element `[0]` version), the parser expects
+`Certificate ::= SEQUENCE { tbsCertificate SEQUENCE …, signatureAlgorithm, signature }` — `InvalidData`. -/
+theorem cert_x509_new_refused (f : Fields) (h : f.Legal) (k : DerRd.CertKind) :
+    ∃ n, certNode f = some n ∧ ∀ buf : List Nat, n.need ≤ buf.length → buf.length < 65536 →
+      asAsn1 f.lazy buf = .ok n.enc ∧ DerRd.x509New k n.enc = .error .invalidData := by
+  obtain ⟨n, hn⟩ := certNode_some f h
+  refine ⟨n, hn, fun buf hfit hsmall => ?_⟩
+  have hl := lenOk_of_need n (by omega)
+  refine ⟨asAsn1_ok f n buf hn h.wf hl hfit, ?_⟩
+  obtain ⟨xi, xs, nb, na, _, _, _, _, _, _, _, _, _, _, a5⟩ := asn1_tbs_layout f n hn h.wf hl
+  have hmax : n.enc.length ≤ DerRd.MAX_LEN := by
+    have := need_ge n
+    have : DerRd.MAX_LEN = 268435455 := rfl
+    omega
+  rw [a5] at hmax ⊢
+  exact DerRd.x509New_tbs_refused k _ _ hmax
+example : certSampleX509.Legal := certSampleX509_legal
 
 end C17
